@@ -311,7 +311,8 @@ def jobs(tier):
     if not q:
         for a0 in range(12):
             for a1 in range(12):
-                add(N=N, LP=3, apps=12, D=1, EX=1, J=(1, 2), fix={"a0": a0, "a1": a1, "n": N, "d1": 1, "d2": 0}, fl="acls")
+                for jr in ((1, 1), (2, 2)) if (a0 == 8 and a1 == 8) else ((1, 2),):  # merge twice: split by items taken
+                    add(N=N, LP=3, apps=12, D=1, EX=1, J=jr, fix={"a0": a0, "a1": a1, "n": N, "d1": 1, "d2": 0}, fl="acls")
     return J
 
 
